@@ -35,7 +35,7 @@ class StepCap(Exception):
 
 class _T:
   __slots__ = ('tid', 'name', 'fn', 'gate', 'thread', 'state', 'exc', 'result',
-               'atomic', 'blocked_on', 'prio', 'last_loc')
+               'atomic', 'blocked_on', 'prio', 'last_loc', 'nyield')
 
   def __init__(self, tid, name, fn):
     self.tid = tid
@@ -50,6 +50,7 @@ class _T:
     self.blocked_on = None
     self.prio = 0
     self.last_loc = 'start'
+    self.nyield = 0           # thread-local count of yield points passed
 
 
 class Sched:
@@ -61,8 +62,11 @@ class Sched:
       rng: random.Random for every scheduling choice (unused under replay).
       policy: dict, one of {'kind':'seq'}, {'kind':'rand','p':float},
         {'kind':'pct','d':int}, {'kind':'target','k':int}.
-      replay: optional recorded schedule {'switches': [[yield_idx, to_tid], ...],
-        'forced': [to_tid, ...]} to follow instead of rng/policy.
+      replay: optional recorded schedule {'switches': [[from_tid,
+        from_local_yield_idx, to_tid], ...], 'forced': [to_tid, ...]} to follow
+        instead of rng/policy.  Switch points are indexed by the *pre-empted
+        thread's own* yield count, so that they keep their meaning when
+        operations of other threads are removed during minimisation.
       length_hint: expected number of yield points (places pct/target points).
       windows: {name: (filename_suffix, first_line, last_line)} watched windows.
       opcode_funcs: function names inside gin traced at opcode granularity.
@@ -73,7 +77,7 @@ class Sched:
     self.threads = []
     self.cur = None
     self.yields = 0
-    self.switch_log = []      # [yield_idx, from, to, loc] voluntary
+    self.switch_log = []      # [yield_idx, from, to, loc, from_local_idx]
     self.forced_log = []      # to_tid for each forced choice, in order
     self.edges = set()
     self.window_hits = {}
@@ -86,8 +90,8 @@ class Sched:
     self._forced_i = 0
     self._switch_at = {}
     if replay is not None:
-      for idx, to in replay.get('switches', []):
-        self._switch_at[int(idx)] = int(to)
+      for frm, idx, to in replay.get('switches', []):
+        self._switch_at[(int(frm), int(idx))] = int(to)
       self._forced = [int(x) for x in replay.get('forced', [])]
     kind = policy.get('kind')
     self._points = set()
@@ -165,6 +169,8 @@ class Sched:
   def _yield(self, t, loc, fn_name):
     idx = self.yields
     self.yields = idx + 1
+    lidx = t.nyield
+    t.nyield = lidx + 1
     t.last_loc = loc
     if idx >= MAX_YIELDS:
       self._fail(StepCap('step cap %d reached' % MAX_YIELDS))
@@ -172,7 +178,7 @@ class Sched:
     kind = self._kind
     to = None
     if kind == 'replay':
-      want = self._switch_at.get(idx)
+      want = self._switch_at.get((t.tid, lidx))
       if want is not None and want != t.tid:
         if 0 <= want < len(self.threads) and \
             self.threads[want].state == 'runnable':
@@ -202,14 +208,14 @@ class Sched:
         to = best
     if to is None:
       return
-    self._record_switch(idx, t, to, loc, fn_name)
+    self._record_switch(idx, lidx, t, to, loc, fn_name)
     to.gate.release()
     t.gate.acquire()
     if self.failure is not None:
       raise SystemExit
 
-  def _record_switch(self, idx, t, to, loc, fn_name):
-    self.switch_log.append([idx, t.tid, to.tid, loc])
+  def _record_switch(self, idx, lidx, t, to, loc, fn_name):
+    self.switch_log.append([idx, t.tid, to.tid, loc, lidx])
     self.edges.add((loc, to.last_loc))
     for name, (suffix, lo, hi) in self.windows.items():
       f, _, ln = loc.rpartition(':')
@@ -305,7 +311,7 @@ class Sched:
       world.CURRENT_SCHED = None
 
   def record(self):
-    return {'switches': [[s[0], s[2]] for s in self.switch_log],
+    return {'switches': [[s[1], s[4], s[2]] for s in self.switch_log],
             'forced': list(self.forced_log)}
 
   def digest(self):
